@@ -341,6 +341,11 @@ BAD_SCHEMAS = {
     "invalid_default": {"type": "object", "properties": {"x": {"type": "integer", "default": "not-a-number"}}},
     "mixed_enum": {"enum": ["a", 1]},
     "allof_non_object": {"allOf": [{"$ref": "#/components/schemas/ZzBadLeafEnum"}, {"type": "object", "properties": {"k": {"type": "string"}}}]},
+    "bad_additional_properties": {"type": "object", "additionalProperties": {"type": "array"}},
+    "bad_nested_list_item": {"type": "object", "properties": {"l": {"type": "array", "items": {"type": "array"}}}},
+    "enum_default_not_member": {"type": "object", "properties": {"e": {"type": "string", "enum": ["a"], "default": "b"}}},
+    "conflicting_allof_members": {"allOf": [{"type": "object", "properties": {"p": {"type": "string"}}}, {"type": "object", "properties": {"p": {"type": "integer"}}}]},
+    "bad_union_member": {"type": "object", "properties": {"u": {"oneOf": [{"type": "array"}, {"type": "string"}]}}},
 }
 BAD_OPERATIONS = {
     "optional_path_param": {"operationId": "zzBadOptionalPath", "parameters": [{"name": "id", "in": "path", "required": False, "schema": {"type": "string"}}], "responses": {"204": {"description": "n"}}},
